@@ -645,7 +645,8 @@ func run(sel int, in []int64) []int64 {
 // ---------- laws: the implementation's verdicts replayed by the extracted checker ----------
 // law input = the history + the verdict the implementation gave to every request.
 // 101 tree shape, 102 per-queue resources, 103 children sums, 104 capability vs
-// nearest ancestor, 105 delete guard, 106 the capacity plugin accepts the final hierarchy.
+// nearest ancestor, 105 delete guard as the code implements it, 106 the capacity plugin accepts the
+// final hierarchy, 107 no admitted DELETE of a queue with allocated pods (full strength).
 func laws(sel int, in, got []int64, law func(lsel int, lin []int64, sig string)) {
 	h := decHistory(in)
 	lin := append([]int64{}, in...)
@@ -659,6 +660,40 @@ func laws(sel int, in, got []int64, law func(lsel int, lin []int64, sig string))
 	law(104, lin, "")
 	law(105, lin, "")
 	law(106, append(append([]int64{}, lin...), got[len(got)-1]), "")
+	// 107: the deletion clause of the property text at full strength (no admitted DELETE of a queue with
+	// allocated pods, whatever the configuration).  Known finding: with EnableQueueAllocatedPodsCheck off
+	// (the default) the webhook does not look at the allocated pods; the sig names exactly that class.
+	sig := ""
+	if h.cfg.allocCheck == 0 {
+		alloc := map[int64]int64{}
+		for _, q := range h.q0 {
+			if _, dup := alloc[q.name]; !dup {
+				alloc[q.name] = q.alloc
+			}
+		}
+		for i, r := range h.reqs {
+			if got[2*i+1] != vAllowed {
+				continue
+			}
+			_, exists := alloc[r.q.name]
+			switch r.kind {
+			case kCreate:
+				if !exists {
+					alloc[r.q.name] = 0
+				}
+			case kEnv:
+				if exists && r.q.alloc >= 0 {
+					alloc[r.q.name] = r.q.alloc
+				}
+			case kDelete:
+				if exists && alloc[r.q.name] != 0 {
+					sig = "C10-delete-allocated-pods-flag-off"
+				}
+				delete(alloc, r.q.name)
+			}
+		}
+	}
+	law(107, lin, sig)
 }
 
 func main() {
